@@ -50,7 +50,7 @@ Definition step (s : st) (l : label) : option st :=
   | Start t ks w =>
       match reqs s t with
       | Some _ => None
-      | None => if nodupb ks && negb (is_nil ks)
+      | None => if nodupb ks
                 then Some (set_req (set_run s t true) t (Some {| rkeys := ks; rwrite := w; rphase := Acq 0 |}))
                 else None
       end
@@ -117,7 +117,7 @@ Definition step (s : st) (l : label) : option st :=
       match reqs s t with
       | Some r => match rphase r with
                   | Acq n => if Nat.eqb n (length (rkeys r)) && negb (running s t)
-                             then Some (set_req s t (Some (with_phase r (Rel (rkeys r))))) else None
+                             then Some (set_req s t (match rkeys r with [] => None | _ => Some (with_phase r (Rel (rkeys r))) end)) else None
                   | Rel _ => None end
       | None => None
       end
@@ -251,8 +251,8 @@ Theorem inv_step s l s' : Inv s -> step s l = Some s' -> Inv s'.
 Proof.
   intros HI H. pose proof HI as [HL HR]. destruct l as [t ks w|t|k i|k|k i|t|t]; cbn [step] in H.
   - (* Start *)
-    destruct (reqs s t) eqn:Et; [discriminate|]. destruct (nodupb ks && negb (is_nil ks)) eqn:Eg; [|discriminate].
-    inversion H; subst s'; clear H. apply andb_prop in Eg. destruct Eg as [Eg _].
+    destruct (reqs s t) eqn:Et; [discriminate|]. destruct (nodupb ks) eqn:Eg; [|discriminate].
+    inversion H; subst s'; clear H.
     split; [exact HL|]. intros t' r. cbn [reqs set_req set_run]. destruct (Nat.eq_dec t' t) as [->|Hne].
     + rewrite upd_same. intros E. inversion E; subst r. split; [apply nodupb_NoDup, Eg|]. cbn [rphase rkeys]. split; [lia|]. intros i k Hi. lia.
     + rewrite upd_other by exact Hne. intros E. apply (req_ok_other s); [|apply HR, E]. intros k w0 Hh. exact Hh.
@@ -301,11 +301,12 @@ Proof.
     destruct (reqs s t) as [r|] eqn:Et; [|discriminate]. destruct (rphase r) as [n|] eqn:Ep; [|discriminate].
     destruct (Nat.eqb n (length (rkeys r)) && negb (running s t)) eqn:Eg; [|discriminate]. inversion H; subst s'; clear H.
     apply andb_prop in Eg. destruct Eg as [Eg _]. apply Nat.eqb_eq in Eg.
-    apply (inv_update s 0 (locks s 0) t (Some (with_phase r (Rel (rkeys r))))); [exact HI| | |apply HL| |].
+    apply (inv_update s 0 (locks s 0) t (match rkeys r with [] => None | _ => Some (with_phase r (Rel (rkeys r))) end)); [exact HI| | |apply HL| |].
     + intros k. cbn [locks set_req]. symmetry. apply upd_id_pt.
     + reflexivity.
     + intros x _. split; auto.
-    + intros r' E. inversion E; subst r'; clear E. destruct (HR t r Et) as [Hnd Hp]. rewrite Ep in Hp. destruct Hp as [_ Hh].
+    + intros r' E. assert (E' : with_phase r (Rel (rkeys r)) = r') by (destruct (rkeys r); [discriminate|inversion E; reflexivity]).
+      subst r'; clear E. destruct (HR t r Et) as [Hnd Hp]. rewrite Ep in Hp. destruct Hp as [_ Hh].
       split; [exact Hnd|]. cbn [with_phase rphase rkeys rwrite]. split; [exact Hnd|].
       intros k Hin. destruct (In_nth_error _ _ Hin) as [i Hi]. unfold holds. cbn [locks set_req].
       apply (Hh i k); [apply nth_error_lt in Hi; lia|exact Hi].
@@ -384,7 +385,7 @@ Qed.
 Theorem one_lock_per_step s l s' : step s l = Some s' -> exists k0, forall k, k <> k0 -> locks s' k = locks s k.
 Proof.
   intros H. destruct l as [t ks w|t|k i|k|k i|t|t]; cbn [step] in H.
-  - destruct (reqs s t); [discriminate|]. destruct (nodupb ks && negb (is_nil ks)); [|discriminate]. inversion H; subst. exists 0. reflexivity.
+  - destruct (reqs s t); [discriminate|]. destruct (nodupb ks); [|discriminate]. inversion H; subst. exists 0. reflexivity.
   - destruct (running s t); [|discriminate]. destruct (reqs s t) as [r|]; [|discriminate]. destruct (rphase r) as [n|]; [|discriminate].
     destruct (nth_error (rkeys r) n) as [k|]; [|inversion H; subst; exists 0; reflexivity].
     exists k. intros k' Hne. destruct (rwrite r); destruct (free (locks s k)); inversion H; subst; cbn [locks set_lock set_run set_req]; apply upd_other, Hne.
